@@ -37,7 +37,7 @@ set_option maxRecDepth 100000
 /-- **A written .sol file is read back as the same solution** (model level, all solutions meeting `Wf`). -/
 theorem C05_roundtrip {D : Type} (fx fm : Bool) (c : Codec D) (s : Sol D) (nVars nCons : Nat) (w : Wf c s nVars nCons) :
     readSol fx fm nVars nCons readAll (writeSol c s) = ⟨.ok, observable c s, false⟩ :=
-  roundtrip fx fm c s nVars nCons w
+  roundtrip' fx fm c s nVars nCons w
 
 /-- the handler receives exactly the written vectors, the written objno/status texts, and no error -/
 theorem C05_roundtrip_code {D : Type} (fx fm : Bool) (c : Codec D) (s : Sol D) (nVars nCons : Nat) (w : Wf c s nVars nCons) :
@@ -59,30 +59,59 @@ theorem C05_vector_roundtrip {D : Type} (c : Codec D) (vs : List D) (rest : Byte
       (⟨vs.length, vs.map (fun v => ⟨0, c.enc v⟩), .ok, 0⟩, rest) :=
   runVec_vals c vs rest h
 
-/-! ## numeric clause: integers and integral reals below 10^15 come back exactly -/
+/-! ## numeric clause
 
-/-- **Integral reals.**  For every integer `n` with `|n| < 10^15` the text the writer prints for the double `n` (`encIntegralReal`, tied to the real writer
-on every run) satisfies both codec hypotheses *unconditionally* (the reader accepts it and consumes exactly that text, as a vector value and as a suffix
-value), its exact decimal value is `n`, and `|n| < 2^53`, i.e. `n` is a double: the correctly rounded `strtod` (trusted: glibc) therefore returns exactly `n`. -/
+What is and is not proved here.  The reader model delivers the TEXT of a number, never a value; `strtod` and fmt's digit generation are outside Lean.
+* Non-integral finite reals ("within 1e-15"): **no theorem**.  `C05_noninteger_real_partial` only says that a text satisfying the codec hypothesis is handed to
+  `strtod` unchanged; the numeric half is sampled (10^5 / 5·10^6 doubles per run through the real fmt and strtod).
+* Integral reals below 10^15: proved about two DEFINITIONS of this development — `fmtG16Int` (text model of `%.16g` on integer-valued doubles, with the switch to
+  scientific notation above 16 digits) and `parseDec` (exact value `m·10^e` of a decimal text): the text passes the reader's scanners unconditionally, it is the
+  plain numeral, and its exact value is the integer, which is a double.  That the real writer prints `fmtG16Int n` and that the real `strtod` returns the correctly
+  rounded `parseDec` value is SAMPLED on every run (fields `intok`, `dec`), not proved; that a correctly rounded `strtod` maps the exact value of a double to that
+  double is a property of glibc that is trusted. -/
+
+/-- **Integral reals below 10^15** (about the text model `fmtG16Int`, see above): the text is the plain numeral, satisfies both codec hypotheses
+*unconditionally* (the reader's scanners accept it and consume exactly that text, as a vector value and as a suffix value), its exact decimal value is `n`,
+and `|n| < 2^53`, i.e. `n` is a double. -/
 theorem C05_integer_real_exact (n : Int) (h : n.natAbs < 10 ^ 15) :
-    GoodNum (encIntegralReal n) ∧ GoodSufTok (encIntegralReal n) ∧ intTextValue (encIntegralReal n) = some n ∧ n.natAbs < 2 ^ 53 := by
-  refine ⟨goodNum_encInt n h, goodSufTok_encInt' n h, intTextValue_encInt n, ?_⟩
+    fmtG16Int n = encInt n ∧ GoodNum (fmtG16Int n) ∧ GoodSufTok (fmtG16Int n) ∧ parseDec (fmtG16Int n) = some (n, 0) ∧ n.natAbs < 2 ^ 53 := by
+  have h16 : n.natAbs < 10 ^ 16 := Nat.lt_trans h (by decide)
+  rw [fmtG16Int_small n h16]
+  refine ⟨rfl, goodNum_encInt n h, goodSufTok_encInt' n h, parseDec_encInt n, ?_⟩
   have : (10 : Nat) ^ 15 < 2 ^ 53 := by decide
   omega
 
-/-- the codec of integral reals: no hypothesis left -/
-def intCodec : Codec Int := ⟨encIntegralReal, fun n => n == 0⟩
+/-- the text model on both sides of the switch at 10^16, and why the bound cannot be dropped: `2^54` is a double, `%.16g` prints it as
+`1.801439850948198e+16`, whose exact value `1801439850948198·10^1` is a different integer (kernel evaluation of the definitions) -/
+theorem C05_g16_switch_instances :
+    fmtG16Int 9999999999999999 = str "9999999999999999" ∧
+    fmtG16Int 10000000000000000 = str "1e+16" ∧
+    fmtG16Int (-10000000000000000000000) = str "-1e+22" ∧
+    fmtG16Int 18014398509481984 = str "1.801439850948198e+16" ∧
+    parseDec (fmtG16Int 18014398509481984) = some (1801439850948198, 1) ∧
+    fmtG16Int 99999999999999995 = str "1e+17" ∧
+    fmtG16Int 12345678901234565 = str "1.234567890123456e+16" ∧
+    fmtG16Int 12345678901234575 = str "1.234567890123458e+16" ∧
+    parseDec (str "-2.25e-07") = some (-225, -9) ∧
+    parseDec (str "nan") = none ∧ parseDec (str "1e") = none := by decide
 
-/-- **Vectors of integral reals of any length come back exactly** (no codec hypothesis): the handler receives, in order, texts whose exact values are the written integers. -/
+/-- the codec of integral reals: no hypothesis left -/
+def intCodec : Codec Int := ⟨fmtG16Int, fun n => n == 0⟩
+
+/-- **Vectors of integral reals below 10^15, any length** (no codec hypothesis): the handler receives, in order, the texts `fmtG16Int n`, whose exact values are
+the written integers. -/
 theorem C05_integer_vector_exact (ns : List Int) (rest : Bytes) (h : ∀ n ∈ ns, n.natAbs < 10 ^ 15) :
     runVec false .dbl .all ns.length (writeVals intCodec ns ++ rest) =
-      (⟨ns.length, ns.map (fun n => ⟨0, encIntegralReal n⟩), .ok, 0⟩, rest) ∧
-    ∀ n ∈ ns, intTextValue (encIntegralReal n) = some n :=
-  ⟨runVec_vals intCodec ns rest (fun n hn => goodNum_encInt n (h n hn)), fun n _ => intTextValue_encInt n⟩
+      (⟨ns.length, ns.map (fun n => ⟨0, fmtG16Int n⟩), .ok, 0⟩, rest) ∧
+    ∀ n ∈ ns, parseDec (fmtG16Int n) = some (n, 0) := by
+  have h16 : ∀ n ∈ ns, fmtG16Int n = encInt n := fun n hn => fmtG16Int_small n (Nat.lt_trans (h n hn) (by decide))
+  refine ⟨runVec_vals intCodec ns rest (fun n hn => ?_), fun n hn => ?_⟩
+  · show GoodNum (fmtG16Int n)
+    rw [h16 n hn]; exact goodNum_encInt n (h n hn)
+  · rw [h16 n hn]; exact parseDec_encInt n
 
-/- Full-strength statement for the other finite reals (NOT provable here: it is about fmt's digit generation and strtod's rounding, which are outside the
-model): `|strtod (enc x) - x| ≤ 1e-15 * |x|`.  Proved instead, under the explicit codec hypothesis on the printed text (evaluated by the driver on every real of
-every run); the numeric half is tested on 10^5 / 5·10^6 doubles per run. -/
+/-- NOT the numeric clause for non-integral reals (there is no theorem for it, see the section comment): under the explicit codec hypothesis on the printed text
+(evaluated by the driver on every real of every run) the vector reader hands exactly that text to `strtod`. -/
 theorem C05_noninteger_real_partial {D : Type} (c : Codec D) (x : D) (rest : Bytes) (h : GoodNum (c.enc x)) :
     readItem false .dbl (c.enc x ++ 10 :: rest) = (.ok ⟨0, c.enc x⟩, rest) :=
   readItem_num (c.enc x) rest h
@@ -98,8 +127,10 @@ theorem C05_real_entries_good {D : Type} (c : Codec D) (vs : List D)
     ∀ e ∈ sparseD c 0 vs, e.1 < vs.length ∧ GoodSufTok e.2 := by
   intro e he; simpa using sparseD_good c 0 vs h e he
 
-/-- the four texts fmt prints for non-finite doubles -/
-def nonfiniteToks : List Bytes := [str "inf", str "-inf", str "nan", str "-nan"]
+/-- the texts fmt prints for non-finite doubles: the spellings found in `write_double` of include/mp/format.h of the tree under test
+(`MpVerif.Gen.SolGuards.fmt_nonfinite`, re-read on every run), each with and without a leading `-`.  The three theorems of the section
+"non-finite values" below quantify over THIS list, so a changed spelling changes their statements and they are decided again. -/
+def nonfiniteToks : List Bytes := MpVerif.Gen.SolGuards.fmt_nonfinite.flatMap (fun s => [str s, 45 :: str s])
 
 /-! ## translator ties (ROUND 4)
 
@@ -114,13 +145,20 @@ theorem C05_gen_kind_mask : ∀ k : Fin 128, w_kind_mask (k.val : Int) = .ret ((
 /-- the OUTPUT filter `(kind & suf::OUTPUT) == 0` = the model's `isOutput` -/
 theorem C05_gen_is_output : ∀ k : Fin 128, w_is_output (k.val : Int) = .ret (if isOutput k.val then 1 else 0) := by decide
 
-/-- every `print` of the writer, in source order, has the format string the model renders (`{}` ↦ `encInt`/`encNat`, `{:.16}` ↦ `Codec.enc`),
-and the suffix kinds are visited in the order of `Sol.sufs` -/
-theorem C05_gen_writer_formats : writer_formats = writerFormats ∧ writer_kind_order = writerKindOrder := by decide
+/-- **The writer model renders the format strings of the tree under test.**  `writeSol` prints each of the eleven `print`s of include/mp/sol.h by
+interpreting its format string as found in the source on this run (`writer_formats`; `{}` of an integer ↦ `encInt`/`encNat`, of a string ↦ the bytes,
+`{:.16}` of a double ↦ `Codec.enc`, `\\n` ↦ 10; anything else is not rendered); the result is, for every codec and solution, the hand-written byte
+layout `writeSolLit` that the round-trip lemmas analyse.  A changed format string changes `writeSol` (driver output, statements of `C05_roundtrip*`)
+and this proof has to be redone. -/
+theorem C05_gen_writer_formats {D : Type} (c : Codec D) (s : Sol D) : writeSol c s = writeSolLit c s := writeSol_eq_lit c s
 
-/-- the four texts of `nonfiniteToks` are exactly fmt's spellings of non-finite doubles (read from include/mp/format.h on every run), with and without sign -/
+/-- TRIPWIRE (detects change, proves nothing about behaviour): there are eleven prints, and `WriteSolFile` visits the suffix kinds in the order in which
+`Sol.sufs` is documented to be concatenated -/
+theorem C05_tripwire_writer_kind_order : writer_formats.length = 11 ∧ writer_kind_order = writerKindOrder := by decide
+
+/-- for the record: in the tree as it is, the list `nonfiniteToks` (defined from the generated spellings) consists of these four texts -/
 theorem C05_gen_nonfinite_spellings :
-    nonfiniteToks = fmt_nonfinite.flatMap (fun s => [str s, 45 :: str s]) := by decide
+    nonfiniteToks = [str "inf", str "-inf", str "nan", str "-nan"] := by decide
 
 end gen2
 
